@@ -311,7 +311,7 @@ func (c *Ctx) fixedTable(g *ssa.Global) ([]ssa.Value, bool) {
 	}
 	nStores := 0
 	okUses := true
-	var direct []ssa.Value // elements stored by the initialiser directly into the array
+	var direct []ssa.Value               // elements stored by the initialiser directly into the array
 	readOnly := func(v ssa.Value) bool { // v: an element address or a copy of the table; only read
 		if v.Referrers() == nil {
 			return false
